@@ -5,6 +5,9 @@
 //!   racer baseline --cases F --out B          (every case in its OWN fresh process: no call history at all)
 //!   racer one --op O --profile P --a A --b B   (one call through a fresh instance; prints the escaped result)
 //!   racer run      --cases F --expect B --threads N --rounds R --seed S
+//!   racer regime   --cases F --expect B --seed S   (single thread: long homogeneous workloads - all ASCII, all CJK,
+//!                                                   all right-to-left, errors only, ... - each followed by the whole case
+//!                                                   list; an adaptive mode that switches on after N calls shows here)
 //!   racer selftest --threads N --rounds R --seed S
 //!
 //! Nothing touches sancane/precis before the worker threads pass the barrier.
@@ -121,6 +124,62 @@ fn main() {
             }
             std::fs::write(arg(&args, "--out").expect("--out"), lines.join("\n") + "\n").expect("write");
             println!("RACER baseline cases={} processes={}", n, n);
+        }
+        "regime" => {
+            let cases = read_cases(&arg(&args, "--cases").expect("--cases"));
+            let expect: Vec<String> = std::fs::read_to_string(arg(&args, "--expect").expect("--expect"))
+                .expect("expect file")
+                .lines()
+                .map(|l| rawfmt::unesc(l).expect("escape"))
+                .collect();
+            let seed: u64 = arg(&args, "--seed").and_then(|s| s.parse().ok()).unwrap_or(0);
+            let per: usize = arg(&args, "--per-regime").and_then(|s| s.parse().ok()).unwrap_or(3000);
+            let mut x = seed ^ 0x5EED;
+            let mut calls = 0usize;
+            let mut mismatches = 0usize;
+            let pick = |x: &mut u64, v: &[char]| v[(next(x) % v.len() as u64) as usize];
+            let ascii: Vec<char> = ('a'..='z').chain('A'..='Z').chain('0'..='9').collect();
+            let latin: Vec<char> = (0xC0u32..0x17F).filter_map(char::from_u32).filter(|c| c.is_alphabetic()).collect();
+            let cjk: Vec<char> = (0x4E00u32..0x4F00).chain(0x3041..0x3090).chain(0x30A1..0x30F0).filter_map(char::from_u32).collect();
+            let rtl: Vec<char> = (0x5D0u32..0x5EB).chain(0x627..0x64B).filter_map(char::from_u32).collect();
+            let mut order: Vec<usize> = (0..7).collect();
+            for i in (1..order.len()).rev() {
+                let j = (next(&mut x) % (i as u64 + 1)) as usize;
+                order.swap(i, j);
+            }
+            for &r in &order {
+                for _ in 0..per {
+                    let n = 3 + (next(&mut x) % 10) as usize;
+                    let s: String = match r {
+                        0 => (0..n).map(|_| pick(&mut x, &ascii)).collect(),
+                        1 => (0..n).map(|k| if k % 4 == 3 { ' ' } else { pick(&mut x, &ascii) }).collect(),
+                        2 => (0..n).map(|_| pick(&mut x, &latin)).collect(),
+                        3 => (0..n).map(|_| pick(&mut x, &cjk)).collect(),
+                        4 => (0..n).map(|_| pick(&mut x, &rtl)).collect(),
+                        5 => (0..n).map(|k| if k == 1 { '\u{1}' } else { pick(&mut x, &ascii) }).collect(),
+                        _ => (0..n * 12).map(|_| pick(&mut x, &ascii)).collect(),
+                    };
+                    let p = rawfmt::PROFILES[(next(&mut x) % 4) as usize];
+                    let op = rawfmt::OPS[(next(&mut x) % 3) as usize];
+                    let _ = rawfmt::raw(p, op, &s, &s, true);
+                    calls += 1;
+                }
+                // the whole case list after this regime
+                for (i, c) in cases.iter().enumerate() {
+                    let res = rawfmt::raw(&c.profile, &c.op, &c.a, &c.b, true);
+                    calls += 1;
+                    if res != expect[i] {
+                        mismatches += 1;
+                        if mismatches <= 10 {
+                            println!(
+                                "MISMATCH thread=0 regime={} op={} profile={} a={} b={} expected={} observed={}",
+                                r, c.op, c.profile, rawfmt::esc(&c.a), rawfmt::esc(&c.b), rawfmt::esc(&expect[i]), rawfmt::esc(&res)
+                            );
+                        }
+                    }
+                }
+            }
+            println!("RACER regime seed={} regimes=7 per_regime={} cases={} calls={} mismatches={}", seed, per, cases.len(), calls, mismatches);
         }
         "run" | "selftest" => {
             let threads: usize = arg(&args, "--threads").and_then(|s| s.parse().ok()).unwrap_or(8);
